@@ -52,6 +52,16 @@ impl<'a> StructDeserializer<'a> {
     }
 }
 
+impl StructDeserializer<'_> {
+    /// A null struct cannot be read into a target that is not an `Option`
+    fn require(&self, idx: usize) -> Result<()> {
+        if !RandomAccessDeserializer::is_some(self, idx)? {
+            fail!(in self, "Required value is not defined");
+        }
+        Ok(())
+    }
+}
+
 impl Context for StructDeserializer<'_> {
     fn annotate(&self, annotations: &mut std::collections::BTreeMap<String, String>) {
         set_default(annotations, "field", &self.path);
@@ -81,6 +91,7 @@ impl<'de> RandomAccessDeserializer<'de> for StructDeserializer<'de> {
     }
 
     fn deserialize_map<V: Visitor<'de>>(&self, visitor: V, idx: usize) -> Result<V::Value> {
+        self.require(idx)?;
         visitor
             .visit_map(StructItemDeserializer::new(self, idx))
             .ctx(self)
@@ -93,6 +104,7 @@ impl<'de> RandomAccessDeserializer<'de> for StructDeserializer<'de> {
         visitor: V,
         idx: usize,
     ) -> Result<V::Value> {
+        self.require(idx)?;
         visitor
             .visit_map(StructItemDeserializer::new(self, idx))
             .ctx(self)
@@ -104,6 +116,7 @@ impl<'de> RandomAccessDeserializer<'de> for StructDeserializer<'de> {
         visitor: V,
         idx: usize,
     ) -> Result<V::Value> {
+        self.require(idx)?;
         visitor
             .visit_seq(StructItemDeserializer::new(self, idx))
             .ctx(self)
@@ -116,6 +129,7 @@ impl<'de> RandomAccessDeserializer<'de> for StructDeserializer<'de> {
         visitor: V,
         idx: usize,
     ) -> Result<V::Value> {
+        self.require(idx)?;
         visitor
             .visit_seq(StructItemDeserializer::new(self, idx))
             .ctx(self)
